@@ -814,6 +814,47 @@ def get_dir_gives_page(py, cls: str, parent_cls: str) -> Optional[bool]:
     return None
 
 
+def class_has_page(py, cls: str, parent_cls: str, after: Optional[str] = None) -> Optional[bool]:
+    """like get_dir_gives_page, but through the get_dir() that runs for `cls` (overrides that return a directory of their own,
+    return None, or defer to `super().get_dir()`); True if some return that can fire names a directory"""
+    r = py.resolve_method(cls, "get_dir", after=after)
+    if r is None:
+        return None
+    owner, fn = r
+    if owner == "FortranBase":
+        return get_dir_gives_page(py, cls, parent_cls)
+
+    def atom(x):
+        if isinstance(x, ast.Call) and call_name(x) == "isinstance" and len(x.args) == 2 and ast.unparse(x.args[0]) in ("self", "self.parent"):
+            who = cls if ast.unparse(x.args[0]) == "self" else parent_cls
+            ks = x.args[1].elts if isinstance(x.args[1], ast.Tuple) else [x.args[1]]
+            names = [ast.unparse(k) for k in ks]
+            if all(k in py.classes for k in names):
+                return ("yes", True) if any(py.is_subclass(who, k) for k in names) else ("no", True)
+        return None
+    verdicts = []
+    for e in astq.trace(fn):
+        if e.kind != "return" or e.value is None or astq.event_fires(e, atom, {"yes": True, "no": False}) is False:
+            continue
+        alts = [e.value.body, e.value.orelse] if isinstance(e.value, ast.IfExp) else [e.value]
+        for v in alts:
+            if isinstance(v, ast.Constant) and v.value is None:
+                verdicts.append(False)
+            elif isinstance(v, ast.Constant):
+                # a fixed directory name: the entity is shown on another entity's page (C10.R4 checks that `ident` follows)
+                verdicts.append(None)
+            elif any(isinstance(c, ast.Call) and isinstance(c.func, ast.Attribute) and c.func.attr == "get_dir"
+                     and isinstance(c.func.value, ast.Call) and call_name(c.func.value) == "super" for c in ast.walk(v)):
+                verdicts.append(class_has_page(py, cls, parent_cls, after=owner))
+            else:
+                verdicts.append(True)
+    if any(v is True for v in verdicts):
+        return True
+    if verdicts and all(v is False for v in verdicts):
+        return False
+    return None
+
+
 def _gather_recursion_covers_displayed_procedures(ctx, rep):
     """Entities that always have a page (namelists) are gathered by walking down from the program units through their procedures.
     The walk has to reach every procedure that is displayed, i.e. every procedure list the display filter recurses into: a list
@@ -1282,6 +1323,11 @@ def r7_pageable_entities_get_pages(ctx, rep):
         return atom
     parent_classes = [c for c in concrete
                       if any(astq.event_fires(e, parent_atom_for(c), {"yes": True, "no": False}) is not False for e in gev[-1:])]
+    # (through the overrides of get_dir as well: a class that names a directory of its own whatever its parent is makes every
+    # kind of parent "page-giving")
+    for c in concrete:
+        if c not in parent_classes and any(class_has_page(py, k, c) is True for k in pageable if k in py.classes):
+            parent_classes.append(c)
     if not parent_classes:
         parent_classes = [e.id for e in parents[0].args[1].elts if isinstance(e, ast.Name)]
     lists = sorted(l for l, c in c05.LIST_ELEM.items() if any(py.is_subclass(c, p) for p in pageable))
@@ -1443,6 +1489,12 @@ def r12_memo(ctx, rep):
     c11.r9_memo(ctx, rep)
 
 
+def r12_page_iteration(ctx, rep):
+    """every static page that the navigation links to is written (shared with C17.R12)"""
+    from . import c17
+    c17.r12_page_iteration_reaches_every_depth(ctx, rep)
+
+
 RULES = [
     RuleSpec("C09.R7", r7_pageable_entities_get_pages, "entities that have a page URL get a page", floor=12),
     RuleSpec("C09.R8", r8_anchor_targets_exist, "anchors of linkable members are emitted unconditionally", floor=16),
@@ -1456,4 +1508,5 @@ RULES = [
     RuleSpec("C09.R10", r10_graph_links, "graph links go through the prepared node URL (shared with C05.R5)", floor=2),
     RuleSpec("C09.R11", r11_visible_after_filter, "collection members are marked visible only after the display filter (shared with C05.R2)", floor=1),
     RuleSpec("C09.R12", r12_memo, "no cached link outlives the page depth it was computed for (shared with C11.R9)", floor=1),
+    RuleSpec("C09.R13", r12_page_iteration, "iterating the page tree reaches every depth (shared with C17.R12)", floor=1),
 ]
